@@ -255,13 +255,20 @@ Fixpoint join_lines (l : list str) : str :=
   | [x] => x
   | x :: r => (x ++ [10] ++ join_lines r)%list
   end.
+(* appendCommentLines: the lines of the comment block trimmed; lines beginning
+   with '#' skipped; blank lines are kept between two lines of the block
+   (paragraph breaks) and dropped at either end of it *)
+Fixpoint drop_blank (l : list str) : list str :=
+  match l with [] :: r => drop_blank r | _ => l end.
+Definition strip_blank_ends (l : list str) : list str := rev (drop_blank (rev (drop_blank l))).
 Definition clean_desc (d : str) : str :=
   match d with
   | [] => []
   | _ =>
       join_lines
-        (filter (fun l => match l with [] => false | c :: _ => negb (N.eqb c 35) end)
-                (map trim (split_lines d [])))
+        (strip_blank_ends
+           (filter (fun l => match l with [] => true | c :: _ => negb (N.eqb c 35) end)
+                   (map trim (split_lines d []))))
   end.
 
 (* an item / value constraint without a type is "no type constraint" (ext.validate.Type == nil) *)
@@ -388,7 +395,8 @@ Definition norm_prop (env : enum_env) (idx : N) (d : prop) : rprop :=
 (* (proved exact in proofs/RulesReadProofs.v: a compiled property reads back as
    declared iff rt_ok holds) *)
 (* the description survives commentDescription unchanged: no line starts with
-   '#', none has leading / trailing blanks, none is empty *)
+   '#', none has leading / trailing blanks, the first and the last line are not
+   empty (blank lines in between are paragraph breaks and survive) *)
 Definition desc_plain (d : str) : bool := str_eqb (clean_desc d) d.
 
 Definition pat_plain (p : option str) : bool :=
